@@ -53,289 +53,301 @@ def _contains_edges(F, body, const_suffix, want_true):
 def check(R):
     F = R.facts
     # ---- a --------------------------------------------------------------------
-    EXP_ATTR = {'<im::encoding::attr::AttrData as im::expand::PathExpansionItem>::expand', '<im::expand::AttrReadPath as im::expand::PathExpansionItem>::expand'}
-    EXP_CMD = '<im::encoding::invoke::CmdData as im::expand::PathExpansionItem>::expand'
-    R.constructors_confined('P1', 'dm::types::attribute::AttrDetails', EXP_ATTR | {'<dm::types::attribute::AttrDetails as core::clone::Clone>::clone'}, min_sites=2)
-    R.constructors_confined('P1', 'dm::types::command::CmdDetails', {'dm::types::command::CmdDetails::new'})
-    R.callers_confined('P1', 'dm::types::command::CmdDetails::new', {EXP_CMD})
-    R.callers_confined('P1', 'im::expand::PathExpansionItem::expand', {PE + '::next'})
-    for e in EXP_ATTR | {EXP_CMD}:
-        cs = F.callers_of(e)
-        R.confine('P1', f'direct callers of {e}', cs, {PE + '::next'})
-    R.callers_confined('P1', PE + '::next_for_path', {PE + '::next'})
-    for m in ('read', 'write', 'invoke'):
-        cs = {F.owner_fn(c) for c in F.callers_of(f'dm::types::handler::asynch::AsyncHandler::{m}')}
-        allowed = {f'im::invoker::HandlerInvoker::{m}'}
-        # delegating adapters (blanket impls and chained handlers) forward the same capability they were given
-        deleg = {c for c in cs if c.startswith('<') and ' as dm::types::handler::' in c}
-        R.confine('P1', f'non-delegating callers of AsyncHandler::{m}', cs - deleg, allowed | {c for c in cs if '::decl::' in c and False})
-    nx = R.body(PE + '::next')
-    exp_calls = nx.calls('im::expand::PathExpansionItem::expand')
-    R.floor('expand() in PathExpander::next', len(exp_calls), 1)
-    R.cut('P2', nx, 'PathExpansionItem::expand', [t.bb for t in exp_calls], 'next_for_path returned Ok(Some(leaf))',
-          lambda: _ok_some(R, nx, PE + '::next_for_path'))
+    with R.clause('a'):
+        pass
+        EXP_ATTR = {'<im::encoding::attr::AttrData as im::expand::PathExpansionItem>::expand', '<im::expand::AttrReadPath as im::expand::PathExpansionItem>::expand'}
+        EXP_CMD = '<im::encoding::invoke::CmdData as im::expand::PathExpansionItem>::expand'
+        R.constructors_confined('P1', 'dm::types::attribute::AttrDetails', EXP_ATTR | {'<dm::types::attribute::AttrDetails as core::clone::Clone>::clone'}, min_sites=2)
+        R.constructors_confined('P1', 'dm::types::command::CmdDetails', {'dm::types::command::CmdDetails::new'})
+        R.callers_confined('P1', 'dm::types::command::CmdDetails::new', {EXP_CMD})
+        R.callers_confined('P1', 'im::expand::PathExpansionItem::expand', {PE + '::next'})
+        for e in EXP_ATTR | {EXP_CMD}:
+            cs = F.callers_of(e)
+            R.confine('P1', f'direct callers of {e}', cs, {PE + '::next'})
+        R.callers_confined('P1', PE + '::next_for_path', {PE + '::next'})
+        for m in ('read', 'write', 'invoke'):
+            cs = {F.owner_fn(c) for c in F.callers_of(f'dm::types::handler::asynch::AsyncHandler::{m}')}
+            allowed = {f'im::invoker::HandlerInvoker::{m}'}
+            # delegating adapters (blanket impls and chained handlers) forward the same capability they were given
+            deleg = {c for c in cs if c.startswith('<') and ' as dm::types::handler::' in c}
+            R.confine('P1', f'non-delegating callers of AsyncHandler::{m}', cs - deleg, allowed | {c for c in cs if '::decl::' in c and False})
+        nx = R.body(PE + '::next')
+        exp_calls = nx.calls('im::expand::PathExpansionItem::expand')
+        R.floor('expand() in PathExpander::next', len(exp_calls), 1)
+        R.cut('P2', nx, 'PathExpansionItem::expand', [t.bb for t in exp_calls], 'next_for_path returned Ok(Some(leaf))',
+              lambda: _ok_some(R, nx, PE + '::next_for_path'))
 
     # ---- b --------------------------------------------------------------------
-    nf = R.body(PE + '::next_for_path')
-    chk = named_local(nf, 'check')
-    ok_edges, _ = prims.enum_local_edges(F, nf, lambda pl: pl[0] in chk and len(pl) == 1, RES, ['Ok'])
-    true_edges = set()
-    for i, blk in enumerate(nf.bbs):
-        t = blk['t']
-        if t['t'] == 'switch' and not blk.get('c'):
-            p = op_place(t['on'])
-            if p and p[0] in chk and len(p) == 3 and p[1] == '@Ok':
-                for val, b in t['tg']:
-                    if val != 0:
-                        true_edges.add((i, b))
-                if all(v == 0 for v, b in t['tg']):
-                    true_edges.add((i, t['else']))
-    R.expect('P2', nf.fn, '`match check` distinguishes Ok(true)', bool(ok_edges) and bool(true_edges), f'{sorted(ok_edges)} / {sorted(true_edges)}', 'no switch on check')
-    rets = [i for i, j, s in nf.stmts() if s[1].get('op') == 'agg' and s[1].get('var') == 'Some' and s[1].get('adt') == 'core::option::Option']
-    rets = [i for i in rets if i in _flow_to_ok_return(nf)]
-    R.floor('return Ok(Some(leaf)) sites', len(rets), 1)
-    R.cut('P2', nf, 'return Ok(Some(leaf))', rets, 'check is Ok(_)', ok_edges)
-    R.cut('P2', nf, 'return Ok(Some(leaf))', rets, 'check is Ok(true)', true_edges)
-    # cache mutations
-    la = 'last_authorized:' + PE
-    muts = sorted({i for i, j, s in nf.field_writes(la)} | {i for i, j, s in nf.stmts() if s[1].get('op') == 'ref' and s[1].get('mut') and any(x == '.' + la for x in s[1]['pl'][1:] if isinstance(x, str))})
-    R.floor('mutations of last_authorized in next_for_path', len(muts), 1)
-    R.cut('P2', nf, 'mutate the last_authorized cache', muts, 'check is Ok(true)', true_edges)
-    wr = {F.owner_fn(w) for w in F.writers.get(la, set())}
-    nonnone = set()
-    for w in F.writers.get(la, set()):
-        b = F.bodies[w]
-        if not b.focus:
-            nonnone.add(F.owner_fn(w))
-            continue
-        for i, j, s in b.field_writes(la):
-            srcs = set()
-            for a in s[1].get('a', ()):
-                srcs |= prims.sources(b, a)
-            if s[1].get('op') == 'agg' and s[1].get('var') == 'None':
+    with R.clause('b'):
+        pass
+        nf = R.body(PE + '::next_for_path')
+        chk = named_local(nf, 'check')
+        ok_edges, _ = prims.enum_local_edges(F, nf, lambda pl: pl[0] in chk and len(pl) == 1, RES, ['Ok'])
+        true_edges = set()
+        for i, blk in enumerate(nf.bbs):
+            t = blk['t']
+            if t['t'] == 'switch' and not blk.get('c'):
+                p = op_place(t['on'])
+                if p and p[0] in chk and len(p) == 3 and p[1] == '@Ok':
+                    for val, b in t['tg']:
+                        if val != 0:
+                            true_edges.add((i, b))
+                    if all(v == 0 for v, b in t['tg']):
+                        true_edges.add((i, t['else']))
+        R.expect('P2', nf.fn, '`match check` distinguishes Ok(true)', bool(ok_edges) and bool(true_edges), f'{sorted(ok_edges)} / {sorted(true_edges)}', 'no switch on check')
+        rets = [i for i, j, s in nf.stmts() if s[1].get('op') == 'agg' and s[1].get('var') == 'Some' and s[1].get('adt') == 'core::option::Option']
+        rets = [i for i in rets if i in _flow_to_ok_return(nf)]
+        R.floor('return Ok(Some(leaf)) sites', len(rets), 1)
+        R.cut('P2', nf, 'return Ok(Some(leaf))', rets, 'check is Ok(_)', ok_edges)
+        R.cut('P2', nf, 'return Ok(Some(leaf))', rets, 'check is Ok(true)', true_edges)
+        # cache mutations
+        la = 'last_authorized:' + PE
+        muts = sorted({i for i, j, s in nf.field_writes(la)} | {i for i, j, s in nf.stmts() if s[1].get('op') == 'ref' and s[1].get('mut') and any(x == '.' + la for x in s[1]['pl'][1:] if isinstance(x, str))})
+        R.floor('mutations of last_authorized in next_for_path', len(muts), 1)
+        R.cut('P2', nf, 'mutate the last_authorized cache', muts, 'check is Ok(true)', true_edges)
+        wr = {F.owner_fn(w) for w in F.writers.get(la, set())}
+        nonnone = set()
+        for w in F.writers.get(la, set()):
+            b = F.bodies[w]
+            if not b.focus:
+                nonnone.add(F.owner_fn(w))
                 continue
-            if ('agg', 'core::option::Option', 'None') in srcs and not ('agg', 'core::option::Option', 'Some') in srcs and s[1].get('op') != 'agg':
-                continue
-            nonnone.add(F.owner_fn(w))
-    R.confine('P1', 'functions storing a non-None last_authorized', nonnone, {PE + '::next_for_path'})
-    # other &mut borrows of the cache anywhere in the crate
-    mb = set()
-    for b in F.bodies.values():
-        if b.focus and b.fn.startswith('im::expand') and b.fn != nf.fn:
-            for i, j, s in b.stmts():
-                if s[1].get('op') == 'ref' and s[1].get('mut') and any(x == '.' + la for x in s[1]['pl'][1:] if isinstance(x, str)):
-                    mb.add(F.owner_fn(b.fn))
-    R.confine('P1', 'functions taking &mut last_authorized', mb, set())
-    # definitions of `check`
-    chk_all = set(chk)
-    changed = True
-    while changed:
-        changed = False
-        for i, j, s in nf.stmts():
-            pl, rv = s[0], s[1]
-            if len(pl) == 1 and pl[0] in chk_all and rv.get('op') == 'use':
-                src = op_place(rv['a'][0])
-                if src and len(src) == 1 and src[0] not in chk_all:
-                    chk_all.add(src[0])
-                    changed = True
-    eq_edges = set()
-    for t in nf.calls('core::cmp::PartialEq::eq'):
-        s = set()
-        for a in t.d['a']:
-            s |= prims.sources(nf, a)
-        if mentions(s, 'last_authorized'):
-            eq_edges |= prims.track_result(F, nf, t).success
-    ndefs = 0
-    for l in chk_all:
-        for (bb, idx, kind, payload) in nf.defs.get(l, ()):
-            if nf.is_cleanup(bb):
-                continue
-            if kind == 'assign':
-                rv = payload[1]
-                if rv.get('op') == 'use' and op_place(rv['a'][0]) and op_place(rv['a'][0])[0] in chk_all:
+            for i, j, s in b.field_writes(la):
+                srcs = set()
+                for a in s[1].get('a', ()):
+                    srcs |= prims.sources(b, a)
+                if s[1].get('op') == 'agg' and s[1].get('var') == 'None':
                     continue
-                ndefs += 1
-                if rv.get('op') == 'agg' and rv.get('var') == 'Ok':
-                    v = rv['a'][0].get('k', {}).get('v')
-                    if v == 0:
-                        R.ok('P10', nf.fn, f'check = Ok(false) at {nf.where(bb, idx)}', 'filtered out', nf.where(bb, idx))
-                    elif v == 1:
-                        r = prims.reach(nf, (0,), cut_edges=eq_edges)
-                        R.expect('P2', nf.fn, 'check = Ok(true) without a fresh access check only on a cache hit', bool(eq_edges) and bb not in r,
-                                 'cut by last_authorized == Some(triple)', 'a constant Ok(true) is assigned to `check` without the cache-hit comparison', nf.where(bb, idx))
+                if ('agg', 'core::option::Option', 'None') in srcs and not ('agg', 'core::option::Option', 'Some') in srcs and s[1].get('op') != 'agg':
+                    continue
+                nonnone.add(F.owner_fn(w))
+        R.confine('P1', 'functions storing a non-None last_authorized', nonnone, {PE + '::next_for_path'})
+        # other &mut borrows of the cache anywhere in the crate
+        mb = set()
+        for b in F.bodies.values():
+            if b.focus and b.fn.startswith('im::expand') and b.fn != nf.fn:
+                for i, j, s in b.stmts():
+                    if s[1].get('op') == 'ref' and s[1].get('mut') and any(x == '.' + la for x in s[1]['pl'][1:] if isinstance(x, str)):
+                        mb.add(F.owner_fn(b.fn))
+        R.confine('P1', 'functions taking &mut last_authorized', mb, set())
+        # definitions of `check`
+        chk_all = set(chk)
+        changed = True
+        while changed:
+            changed = False
+            for i, j, s in nf.stmts():
+                pl, rv = s[0], s[1]
+                if len(pl) == 1 and pl[0] in chk_all and rv.get('op') == 'use':
+                    src = op_place(rv['a'][0])
+                    if src and len(src) == 1 and src[0] not in chk_all:
+                        chk_all.add(src[0])
+                        changed = True
+        eq_edges = set()
+        for t in nf.calls('core::cmp::PartialEq::eq'):
+            s = set()
+            for a in t.d['a']:
+                s |= prims.sources(nf, a)
+            if mentions(s, 'last_authorized'):
+                eq_edges |= prims.track_result(F, nf, t).success
+        ndefs = 0
+        for l in chk_all:
+            for (bb, idx, kind, payload) in nf.defs.get(l, ()):
+                if nf.is_cleanup(bb):
+                    continue
+                if kind == 'assign':
+                    rv = payload[1]
+                    if rv.get('op') == 'use' and op_place(rv['a'][0]) and op_place(rv['a'][0])[0] in chk_all:
+                        continue
+                    ndefs += 1
+                    if rv.get('op') == 'agg' and rv.get('var') == 'Ok':
+                        v = rv['a'][0].get('k', {}).get('v')
+                        if v == 0:
+                            R.ok('P10', nf.fn, f'check = Ok(false) at {nf.where(bb, idx)}', 'filtered out', nf.where(bb, idx))
+                        elif v == 1:
+                            r = prims.reach(nf, (0,), cut_edges=eq_edges)
+                            R.expect('P2', nf.fn, 'check = Ok(true) without a fresh access check only on a cache hit', bool(eq_edges) and bb not in r,
+                                     'cut by last_authorized == Some(triple)', 'a constant Ok(true) is assigned to `check` without the cache-hit comparison', nf.where(bb, idx))
+                        else:
+                            R.fail('P10', nf.fn, 'check is assigned only from the access checks', f'unrecognised definition Ok({rv["a"][0]})', nf.where(bb, idx))
                     else:
-                        R.fail('P10', nf.fn, 'check is assigned only from the access checks', f'unrecognised definition Ok({rv["a"][0]})', nf.where(bb, idx))
-                else:
-                    R.fail('P10', nf.fn, 'check is assigned only from the access checks', f'unrecognised definition {rv.get("op")}', nf.where(bb, idx))
-            elif kind == 'call':
-                ndefs += 1
-                cn = payload.get('f')
-                okd = False
-                if cn == 'core::result::Result::map':
-                    a0 = op_place(payload['a'][0])
-                    if a0 and len(a0) == 1:
-                        ds = nf.defs.get(a0[0], ())
-                        okd = len(ds) == 1 and ds[0][2] == 'call' and ds[0][3].get('f') in (CL + '::check_cmd_access', CL + '::check_attr_access')
-                R.expect('P10', nf.fn, f'check <= {cn} at {nf.where(bb)} is Result::map over a direct check_*_access call', okd,
-                         'map(check_*_access(..))', f'`check` is assigned from {cn}, not from an access check', nf.where(bb))
-    R.floor('definitions of `check`', ndefs, 4)
-    # accessor / timed provenance of the two checks
-    for cn in (CL + '::check_cmd_access', CL + '::check_attr_access'):
-        t = nf.calls(cn)[0]
-        sa, st = prims.sources(nf, t.d['a'][1]), prims.sources(nf, t.d['a'][2])
-        R.expect('P10', nf.fn, f'{cn.split("::")[-1]} is given the expander\'s accessor and timed flag', mentions(sa, 'accessor') and mentions(st, 'timed'),
-                 'self.accessor, self.timed', f'{sorted(map(str, sa))[:4]} / {sorted(map(str, st))[:4]}', nf.where(t.bb))
-        # the leaf id checked is the leaf id returned
-    R.cut('P2', nf, 'descend into an endpoint (check_*_access / return)', call_bbs(nf, CL + '::check_cmd_access', CL + '::check_attr_access') + rets,
-          'Accessor::is_endpoint_accessible == true', lambda: R.call_guard(nf, 'acl::Accessor::is_endpoint_accessible'))
+                        R.fail('P10', nf.fn, 'check is assigned only from the access checks', f'unrecognised definition {rv.get("op")}', nf.where(bb, idx))
+                elif kind == 'call':
+                    ndefs += 1
+                    cn = payload.get('f')
+                    okd = False
+                    if cn == 'core::result::Result::map':
+                        a0 = op_place(payload['a'][0])
+                        if a0 and len(a0) == 1:
+                            ds = nf.defs.get(a0[0], ())
+                            okd = len(ds) == 1 and ds[0][2] == 'call' and ds[0][3].get('f') in (CL + '::check_cmd_access', CL + '::check_attr_access')
+                    R.expect('P10', nf.fn, f'check <= {cn} at {nf.where(bb)} is Result::map over a direct check_*_access call', okd,
+                             'map(check_*_access(..))', f'`check` is assigned from {cn}, not from an access check', nf.where(bb))
+        R.floor('definitions of `check`', ndefs, 4)
+        # accessor / timed provenance of the two checks
+        for cn in (CL + '::check_cmd_access', CL + '::check_attr_access'):
+            t = nf.calls(cn)[0]
+            sa, st = prims.sources(nf, t.d['a'][1]), prims.sources(nf, t.d['a'][2])
+            R.expect('P10', nf.fn, f'{cn.split("::")[-1]} is given the expander\'s accessor and timed flag', mentions(sa, 'accessor') and mentions(st, 'timed'),
+                     'self.accessor, self.timed', f'{sorted(map(str, sa))[:4]} / {sorted(map(str, st))[:4]}', nf.where(t.bb))
+            # the leaf id checked is the leaf id returned
+        R.cut('P2', nf, 'descend into an endpoint (check_*_access / return)', call_bbs(nf, CL + '::check_cmd_access', CL + '::check_attr_access') + rets,
+              'Accessor::is_endpoint_accessible == true', lambda: R.call_guard(nf, 'acl::Accessor::is_endpoint_accessible'))
 
     # ---- c --------------------------------------------------------------------
-    for fn in ('check_attr_access', 'check_cmd_access', 'check_event_access'):
-        b = R.body(CL + '::' + fn)
-        oks = ok_return_bbs(b)
-        R.floor(f'Ok returns of {fn}', len(oks), 1)
-        R.cut('P2', b, 'return Ok(())', oks, 'AccessReq::allow == true', lambda b=b: R.call_guard(b, 'acl::AccessReq::allow'))
-        t = b.calls('acl::AccessReq::new')
-        R.floor(f'AccessReq::new in {fn}', len(t), 1)
-        sa = prims.sources(b, t[0].d['a'][0])
-        R.expect('P10', b.fn, 'the request evaluated is for the accessor parameter', ('arg', 2) in sa, 'AccessReq::new(accessor, ..)', f'{sorted(map(str, sa))[:4]}')
-        sp = b.calls('acl::AccessReq::set_target_perms')
-        R.floor(f'set_target_perms in {fn}', len(sp), 1)
-        bad = prims.precedes(b, [sp[0].bb], call_bbs(b, 'acl::AccessReq::allow'))
-        R.expect('P3', b.fn, 'the element\'s declared access is installed before allow()', not bad, 'set_target_perms precedes allow', 'allow() reachable without set_target_perms')
-        if fn in ('check_attr_access', 'check_cmd_access'):
-            def timed_edges(b=b, fn=fn):
-                e, n = _contains_edges(F, b, ACCESS + 'TIMED_ONLY', False)
-                if n < 1:
-                    return set()
-                for l in range(1, b.argc + 1):
-                    if b.local_name(l) == 'timed':
-                        e |= prims.bool_local_edges(b, l)[0]
-                    if b.local_name(l) == 'write':
-                        e |= prims.bool_local_edges(b, l)[1]
-                return e
-            R.cut('P2', b, 'return Ok(())', oks, 'not TIMED_ONLY, or timed' + (', or a read' if fn == 'check_attr_access' else ''), timed_edges)
-        if fn == 'check_cmd_access':
-            def fab_edges(b=b):
-                e, n = _contains_edges(F, b, ACCESS + 'FAB_SCOPED', False)
-                if n < 1:
-                    return set()
-                for bb, te, fe in prims.cmp_guard_edges(b, 'Eq', lambda s: mentions(s, 'fab_idx'), lambda s: 0 in src_consts(s)):
-                    e |= fe
-                return e
-            R.cut('P2', b, 'return Ok(())', oks, 'not FAB_SCOPED, or the accessor has a fabric', fab_edges)
-        if fn == 'check_attr_access':
-            def op_edges(b=b):
-                e = set()
-                for t in b.calls():
-                    if t.d.get('f', '').endswith('::contains'):
-                        s = set()
-                        for a in t.d['a'][1:]:
-                            s |= prims.sources(b, a, through={'acl::AccessReq::operation'})
-                        if 'acl::AccessReq::operation' in src_calls(s):
-                            e |= prims.track_result(F, b, t).success
-                return e
-            R.cut('P2', b, 'return Ok(())', oks, 'target_perms.contains(operation)', op_edges)
-    R.callers_confined('P1', CL + '::check_cmd_access', {PE + '::next_for_path'})
+    with R.clause('c'):
+        pass
+        for fn in ('check_attr_access', 'check_cmd_access', 'check_event_access'):
+            b = R.body(CL + '::' + fn)
+            oks = ok_return_bbs(b)
+            R.floor(f'Ok returns of {fn}', len(oks), 1)
+            R.cut('P2', b, 'return Ok(())', oks, 'AccessReq::allow == true', lambda b=b: R.call_guard(b, 'acl::AccessReq::allow'))
+            t = b.calls('acl::AccessReq::new')
+            R.floor(f'AccessReq::new in {fn}', len(t), 1)
+            sa = prims.sources(b, t[0].d['a'][0])
+            R.expect('P10', b.fn, 'the request evaluated is for the accessor parameter', ('arg', 2) in sa, 'AccessReq::new(accessor, ..)', f'{sorted(map(str, sa))[:4]}')
+            sp = b.calls('acl::AccessReq::set_target_perms')
+            R.floor(f'set_target_perms in {fn}', len(sp), 1)
+            bad = prims.precedes(b, [sp[0].bb], call_bbs(b, 'acl::AccessReq::allow'))
+            R.expect('P3', b.fn, 'the element\'s declared access is installed before allow()', not bad, 'set_target_perms precedes allow', 'allow() reachable without set_target_perms')
+            if fn in ('check_attr_access', 'check_cmd_access'):
+                def timed_edges(b=b, fn=fn):
+                    e, n = _contains_edges(F, b, ACCESS + 'TIMED_ONLY', False)
+                    if n < 1:
+                        return set()
+                    for l in range(1, b.argc + 1):
+                        if b.local_name(l) == 'timed':
+                            e |= prims.bool_local_edges(b, l)[0]
+                        if b.local_name(l) == 'write':
+                            e |= prims.bool_local_edges(b, l)[1]
+                    return e
+                R.cut('P2', b, 'return Ok(())', oks, 'not TIMED_ONLY, or timed' + (', or a read' if fn == 'check_attr_access' else ''), timed_edges)
+            if fn == 'check_cmd_access':
+                def fab_edges(b=b):
+                    e, n = _contains_edges(F, b, ACCESS + 'FAB_SCOPED', False)
+                    if n < 1:
+                        return set()
+                    for bb, te, fe in prims.cmp_guard_edges(b, 'Eq', lambda s: mentions(s, 'fab_idx'), lambda s: 0 in src_consts(s)):
+                        e |= fe
+                    return e
+                R.cut('P2', b, 'return Ok(())', oks, 'not FAB_SCOPED, or the accessor has a fabric', fab_edges)
+            if fn == 'check_attr_access':
+                def op_edges(b=b):
+                    e = set()
+                    for t in b.calls():
+                        if t.d.get('f', '').endswith('::contains'):
+                            s = set()
+                            for a in t.d['a'][1:]:
+                                s |= prims.sources(b, a, through={'acl::AccessReq::operation'})
+                            if 'acl::AccessReq::operation' in src_calls(s):
+                                e |= prims.track_result(F, b, t).success
+                    return e
+                R.cut('P2', b, 'return Ok(())', oks, 'target_perms.contains(operation)', op_edges)
+        R.callers_confined('P1', CL + '::check_cmd_access', {PE + '::next_for_path'})
 
     # ---- d --------------------------------------------------------------------
-    for fn, resp in (('write', 'im::WriteResponder::respond'), ('invoke', 'im::InvokeResponder::respond')):
-        co = async_body(R, IM + '::' + fn)
-        rs = co.calls(resp)
-        R.floor(f'{resp} in {fn}', len(rs), 1)
+    with R.clause('d'):
+        pass
+        for fn, resp in (('write', 'im::WriteResponder::respond'), ('invoke', 'im::InvokeResponder::respond')):
+            co = async_body(R, IM + '::' + fn)
+            rs = co.calls(resp)
+            R.floor(f'{resp} in {fn}', len(rs), 1)
 
-        def notimed(co=co):
-            e = set()
-            for t in co.calls(IM + '::timed_out'):
-                tr = prims.track_result(F, co, t, inner=1)
-                e |= tr.failure
-            return e
-        R.cut('P2', co, 'run the ' + fn + ' responder (every chunk)', [t.bb for t in rs], 'timed_out(..) == false', notimed, per_visit=True)
-        to = co.calls(IM + '::timed_out')
-        R.floor('timed_out call', len(to), 1)
-        s_inst, s_flag = prims.sources(co, to[0].d['a'][2]), prims.sources(co, to[0].d['a'][3], through={'im::encoding::write::WriteReq::timed_request', 'im::encoding::invoke::InvReq::timed_request'})
-        R.expect('P10', co.fn, 'timed_out receives the interaction\'s timeout instant and the request\'s own timed flag',
-                 (mentions(s_inst, 'timeout_instant') or any(x[0] == 'upvar' and 'timeout_instant' in x[1] for x in s_inst)) and any(c.endswith('::timed_request') for c in src_calls(s_flag)),
-                 'timed_out(exchange, timeout_instant, req.timed_request()?)', f'{sorted(map(str, s_inst))[:4]} / {sorted(map(str, s_flag))[:4]}', co.where(to[0].bb))
-    to = async_body(R, IM + '::timed_out')
-    status = named_local(to, 'status')
-    nones = agg_flowing_to(to, status, 'None')
-    R.floor('status = None in timed_out', len(nones), 1)
-    R.cut('P2', to, 'status = None (not timed out)', nones, 'timed_req == timeout_instant.is_some()',
-          lambda: _cmp_false(to, 'Ne', lambda s: ('arg', 1) in s or any(x[0] == 'upvar' and 'timed_req' in x[1] for x in s) or mentions(s, 'timed_req'),
-                             lambda s: 'core::option::Option::is_some' in src_calls(s)))
-    R.cut('P2', to, 'status = None (not timed out)', nones, 'deadline not passed',
-          lambda: _fail_edges(R, to, 'core::option::Option::unwrap_or'))
-    falses = [i for i, j, s in to.stmts() if s[1].get('op') == 'agg' and s[1].get('var') == 'Ok' and s[1]['a'] and s[1]['a'][0].get('k', {}).get('v') == 0]
-    R.floor('Ok(false) in timed_out', len(falses), 1)
-    se, _ = prims.enum_local_edges(F, to, lambda pl: pl[0] in status and len(pl) == 1, 'core::option::Option', ['None'])
-    R.cut('P2', to, 'return Ok(false)', falses, 'status is None', se)
-    dl = closure_in(R, IM + '::timed_out', ['Instant::now'])
-    cs = prims.compare_sites(dl)
-    okc = False
-    for (bb, j, op, a1, a2, d) in cs:
-        l_now = any(c.endswith('Instant::now') for c in src_calls(prims.sources(dl, a1)))
-        r_now = any(c.endswith('Instant::now') for c in src_calls(prims.sources(dl, a2)))
-        okc = okc or (op in ('Gt', 'Ge') and l_now and not r_now) or (op in ('Lt', 'Le') and r_now and not l_now)
-    pc = [t for t in dl.calls() if t.d.get('f', '') in ('core::cmp::PartialOrd::gt', 'core::cmp::PartialOrd::ge')]
-    for t in pc:
-        l_now = any(c.endswith('Instant::now') for c in src_calls(prims.sources(dl, t.d['a'][0])))
-        r_now = any(c.endswith('Instant::now') for c in src_calls(prims.sources(dl, t.d['a'][1])))
-        okc = okc or (l_now and not r_now)
-    R.expect('P10', dl.fn, 'expiry test is now > deadline', okc, 'Instant::now() > timeout_instant', f'comparisons {[(c[2]) for c in cs]} calls {[t.d.get("f") for t in pc]}')
-    # the expander's `timed` comes from the request (and the read expansion is never timed)
-    for fn in ('im::expand::expand_write', 'im::expand::expand_invoke'):
-        b = R.body(fn)
-        t = b.calls('im::expand::PathExpanderIterator::new')
-        R.floor(f'PathExpanderIterator::new in {fn}', len(t), 1)
-        s = prims.sources(b, t[0].d['a'][2], through={'im::encoding::write::WriteReq::timed_request', 'im::encoding::invoke::InvReq::timed_request'})
-        R.expect('P10', fn, 'the expander\'s timed flag derives from req.timed_request() and the accessor is the caller\'s',
-                 any(c.endswith('::timed_request') for c in src_calls(s)) and not [c for c in src_consts(s) if c is not None] and ('arg', 3) in prims.sources(b, t[0].d['a'][1]),
-                 'PathExpanderIterator::new(metadata, accessor, req.timed_request()?, ..)', f'{sorted(map(str, s))[:5]}', b.where(t[0].bb))
-    pin = R.body('im::expand::PathExpanderIterator::new')
-    t = pin.calls(PE + '::new')
-    R.floor('PathExpander::new in PathExpanderIterator::new', len(t), 1)
-    R.expect('P10', pin.fn, 'accessor and timed are handed to the expander unchanged',
-             ('arg', 2) in prims.sources(pin, t[0].d['a'][0]) and ('arg', 3) in prims.sources(pin, t[0].d['a'][1]), 'PathExpander::new(accessor, timed, ..)',
-             f'{sorted(map(str, prims.sources(pin, t[0].d["a"][0])))[:3]} / {sorted(map(str, prims.sources(pin, t[0].d["a"][1])))[:3]}')
-    for fld, argn in (('accessor', 1), ('timed', 2)):
-        R.writers_confined('P1', f'{fld}:{PE}', {PE + '::new'}, min_sites=0)
+            def notimed(co=co):
+                e = set()
+                for t in co.calls(IM + '::timed_out'):
+                    tr = prims.track_result(F, co, t, inner=1)
+                    e |= tr.failure
+                return e
+            R.cut('P2', co, 'run the ' + fn + ' responder (every chunk)', [t.bb for t in rs], 'timed_out(..) == false', notimed, per_visit=True)
+            to = co.calls(IM + '::timed_out')
+            R.floor('timed_out call', len(to), 1)
+            s_inst, s_flag = prims.sources(co, to[0].d['a'][2]), prims.sources(co, to[0].d['a'][3], through={'im::encoding::write::WriteReq::timed_request', 'im::encoding::invoke::InvReq::timed_request'})
+            R.expect('P10', co.fn, 'timed_out receives the interaction\'s timeout instant and the request\'s own timed flag',
+                     (mentions(s_inst, 'timeout_instant') or any(x[0] == 'upvar' and 'timeout_instant' in x[1] for x in s_inst)) and any(c.endswith('::timed_request') for c in src_calls(s_flag)),
+                     'timed_out(exchange, timeout_instant, req.timed_request()?)', f'{sorted(map(str, s_inst))[:4]} / {sorted(map(str, s_flag))[:4]}', co.where(to[0].bb))
+        to = async_body(R, IM + '::timed_out')
+        status = named_local(to, 'status')
+        nones = agg_flowing_to(to, status, 'None')
+        R.floor('status = None in timed_out', len(nones), 1)
+        R.cut('P2', to, 'status = None (not timed out)', nones, 'timed_req == timeout_instant.is_some()',
+              lambda: _cmp_false(to, 'Ne', lambda s: ('arg', 1) in s or any(x[0] == 'upvar' and 'timed_req' in x[1] for x in s) or mentions(s, 'timed_req'),
+                                 lambda s: 'core::option::Option::is_some' in src_calls(s)))
+        R.cut('P2', to, 'status = None (not timed out)', nones, 'deadline not passed',
+              lambda: _fail_edges(R, to, 'core::option::Option::unwrap_or'))
+        falses = [i for i, j, s in to.stmts() if s[1].get('op') == 'agg' and s[1].get('var') == 'Ok' and s[1]['a'] and s[1]['a'][0].get('k', {}).get('v') == 0]
+        R.floor('Ok(false) in timed_out', len(falses), 1)
+        se, _ = prims.enum_local_edges(F, to, lambda pl: pl[0] in status and len(pl) == 1, 'core::option::Option', ['None'])
+        R.cut('P2', to, 'return Ok(false)', falses, 'status is None', se)
+        dl = closure_in(R, IM + '::timed_out', ['Instant::now'])
+        cs = prims.compare_sites(dl)
+        okc = False
+        for (bb, j, op, a1, a2, d) in cs:
+            l_now = any(c.endswith('Instant::now') for c in src_calls(prims.sources(dl, a1)))
+            r_now = any(c.endswith('Instant::now') for c in src_calls(prims.sources(dl, a2)))
+            okc = okc or (op in ('Gt', 'Ge') and l_now and not r_now) or (op in ('Lt', 'Le') and r_now and not l_now)
+        pc = [t for t in dl.calls() if t.d.get('f', '') in ('core::cmp::PartialOrd::gt', 'core::cmp::PartialOrd::ge')]
+        for t in pc:
+            l_now = any(c.endswith('Instant::now') for c in src_calls(prims.sources(dl, t.d['a'][0])))
+            r_now = any(c.endswith('Instant::now') for c in src_calls(prims.sources(dl, t.d['a'][1])))
+            okc = okc or (l_now and not r_now)
+        R.expect('P10', dl.fn, 'expiry test is now > deadline', okc, 'Instant::now() > timeout_instant', f'comparisons {[(c[2]) for c in cs]} calls {[t.d.get("f") for t in pc]}')
+        # the expander's `timed` comes from the request (and the read expansion is never timed)
+        for fn in ('im::expand::expand_write', 'im::expand::expand_invoke'):
+            b = R.body(fn)
+            t = b.calls('im::expand::PathExpanderIterator::new')
+            R.floor(f'PathExpanderIterator::new in {fn}', len(t), 1)
+            s = prims.sources(b, t[0].d['a'][2], through={'im::encoding::write::WriteReq::timed_request', 'im::encoding::invoke::InvReq::timed_request'})
+            R.expect('P10', fn, 'the expander\'s timed flag derives from req.timed_request() and the accessor is the caller\'s',
+                     any(c.endswith('::timed_request') for c in src_calls(s)) and not [c for c in src_consts(s) if c is not None] and ('arg', 3) in prims.sources(b, t[0].d['a'][1]),
+                     'PathExpanderIterator::new(metadata, accessor, req.timed_request()?, ..)', f'{sorted(map(str, s))[:5]}', b.where(t[0].bb))
+        pin = R.body('im::expand::PathExpanderIterator::new')
+        t = pin.calls(PE + '::new')
+        R.floor('PathExpander::new in PathExpanderIterator::new', len(t), 1)
+        R.expect('P10', pin.fn, 'accessor and timed are handed to the expander unchanged',
+                 ('arg', 2) in prims.sources(pin, t[0].d['a'][0]) and ('arg', 3) in prims.sources(pin, t[0].d['a'][1]), 'PathExpander::new(accessor, timed, ..)',
+                 f'{sorted(map(str, prims.sources(pin, t[0].d["a"][0])))[:3]} / {sorted(map(str, prims.sources(pin, t[0].d["a"][1])))[:3]}')
+        for fld, argn in (('accessor', 1), ('timed', 2)):
+            R.writers_confined('P1', f'{fld}:{PE}', {PE + '::new'}, min_sites=0)
 
     # ---- e --------------------------------------------------------------------
-    vep = R.body('dm::types::node::Node::validate_event_path')
-    R.expect('P4', vep.fn, 'event path validation reaches check_event_access', CL + '::check_event_access' in vep.calls_summary or any(CL + '::check_event_access' in b.calls_summary for b in F.nested(vep.fn)),
-             'validate_event_path -> check_event_access', 'check_event_access not called')
-    rd = prims.result_defs(vep)
-    okaggs = [bb for bb, k, p in rd if k == 'agg' and p.get('var') == 'Ok']
-    tails = [(bb, p) for bb, k, p in rd if k == 'call']
-    R.expect('P10', vep.fn, 'a concrete event path returns the verdict of check_event_access',
-             any(p.get('f') == CL + '::check_event_access' for bb, p in tails) and all(p.get('f') in (CL + '::check_event_access', 'core::ops::try_trait::FromResidual::from_residual') for bb, p in tails),
-             'tail call check_event_access', f'{[p.get("f") for bb, p in tails]}')
-    if okaggs:
-        def wildcard():
-            e = set()
-            for t in vep.calls('dm::types::node::Node::validate_cluster_path'):
-                e |= prims.track_result(F, vep, t, inner=1).failure
-            return e
-        R.cut('P2', vep, 'return Ok(()) without an event access check', okaggs, 'the path is a wildcard (validate_cluster_path returned None)', wildcard)
-    R.callers_confined('P1', CL + '::check_event_access', {'dm::types::node::Node::validate_event_path'})
-    users = sorted({F.owner_fn(c) for c in F.callers_of('dm::types::node::Node::validate_event_path')})
-    R.expect('P4', 'im::events', 'the event reader filters by validate_event_path', any(u.startswith('im::events') or u.startswith('im::') for u in users),
-             f'callers: {users}', f'callers: {users}')
-    for u in users:
-        for b in [x for x in F.bodies.values() if x.focus and F.owner_fn(x.fn) == u and 'dm::types::node::Node::validate_event_path' in x.calls_summary]:
-            from common import result_used
-            result_used(R, 'P8', b, ('dm::types::node::Node::validate_event_path',))
+    with R.clause('e'):
+        pass
+        vep = R.body('dm::types::node::Node::validate_event_path')
+        R.expect('P4', vep.fn, 'event path validation reaches check_event_access', CL + '::check_event_access' in vep.calls_summary or any(CL + '::check_event_access' in b.calls_summary for b in F.nested(vep.fn)),
+                 'validate_event_path -> check_event_access', 'check_event_access not called')
+        rd = prims.result_defs(vep)
+        okaggs = [bb for bb, k, p in rd if k == 'agg' and p.get('var') == 'Ok']
+        tails = [(bb, p) for bb, k, p in rd if k == 'call']
+        R.expect('P10', vep.fn, 'a concrete event path returns the verdict of check_event_access',
+                 any(p.get('f') == CL + '::check_event_access' for bb, p in tails) and all(p.get('f') in (CL + '::check_event_access', 'core::ops::try_trait::FromResidual::from_residual') for bb, p in tails),
+                 'tail call check_event_access', f'{[p.get("f") for bb, p in tails]}')
+        if okaggs:
+            def wildcard():
+                e = set()
+                for t in vep.calls('dm::types::node::Node::validate_cluster_path'):
+                    e |= prims.track_result(F, vep, t, inner=1).failure
+                return e
+            R.cut('P2', vep, 'return Ok(()) without an event access check', okaggs, 'the path is a wildcard (validate_cluster_path returned None)', wildcard)
+        R.callers_confined('P1', CL + '::check_event_access', {'dm::types::node::Node::validate_event_path'})
+        users = sorted({F.owner_fn(c) for c in F.callers_of('dm::types::node::Node::validate_event_path')})
+        R.expect('P4', 'im::events', 'the event reader filters by validate_event_path', any(u.startswith('im::events') or u.startswith('im::') for u in users),
+                 f'callers: {users}', f'callers: {users}')
+        for u in users:
+            for b in [x for x in F.bodies.values() if x.focus and F.owner_fn(x.fn) == u and 'dm::types::node::Node::validate_event_path' in x.calls_summary]:
+                from common import result_used
+                result_used(R, 'P8', b, ('dm::types::node::Node::validate_event_path',))
 
     # ---- f --------------------------------------------------------------------
-    rd = async_body(R, IM + '::read')
-    resp = [t.bb for t in rd.calls() if t.d.get('f', '').endswith('ReportDataResponder::respond') or t.d.get('f', '') == IM + '::report_data' or t.d.get('f', '').endswith('::respond')]
-    R.floor('responder call in read', len(resp), 1)
-    R.cut('P2', rd, 'run the read responder', resp, 'validate_read ok', lambda: R.call_guard(rd, IM + '::validate_read'))
-    sb = async_body(R, IM + '::subscribe')
-    resp = [t.bb for t in sb.calls() if t.d.get('f', '') == IM + '::report_data' or t.d.get('f', '').endswith('::respond')]
-    R.floor('responder call in subscribe', len(resp), 1)
-    R.cut('P2', sb, 'prime the subscription', resp, 'validate_subscribe ok', lambda: R.call_guard(sb, IM + '::validate_subscribe'))
+    with R.clause('f'):
+        pass
+        rd = async_body(R, IM + '::read')
+        resp = [t.bb for t in rd.calls() if t.d.get('f', '').endswith('ReportDataResponder::respond') or t.d.get('f', '') == IM + '::report_data' or t.d.get('f', '').endswith('::respond')]
+        R.floor('responder call in read', len(resp), 1)
+        R.cut('P2', rd, 'run the read responder', resp, 'validate_read ok', lambda: R.call_guard(rd, IM + '::validate_read'))
+        sb = async_body(R, IM + '::subscribe')
+        resp = [t.bb for t in sb.calls() if t.d.get('f', '') == IM + '::report_data' or t.d.get('f', '').endswith('::respond')]
+        R.floor('responder call in subscribe', len(resp), 1)
+        R.cut('P2', sb, 'prime the subscription', resp, 'validate_subscribe ok', lambda: R.call_guard(sb, IM + '::validate_subscribe'))
 
 
 def _ok_some(R, body, callee):
@@ -344,7 +356,7 @@ def _ok_some(R, body, callee):
         tr = prims.track_result(R.facts, body, t)
         inner = prims.track_result(R.facts, body, t, inner=1)
         if not tr.success or not inner.success:
-            from run import GuardMissing
+            from facts import GuardMissing
             raise GuardMissing(f'{callee} result not matched on Ok(Some)')
         e |= inner.success
     return e
